@@ -197,7 +197,7 @@ pub fn run_c(root_fd: Option<i32>, handle_fd: Option<i32>, op: &Value) -> Outcom
 /// C16: many threads fail and consume errors concurrently.  Returns a report:
 /// ids handed out while all were live, per-id consumption results, and a
 /// serialised history (store/take under a harness lock) for model replay.
-pub fn error_stress(root: c_int, nthreads: usize, per_thread: usize, seed: u64) -> Value {
+pub fn error_stress(root: c_int, nthreads: usize, per_thread: usize, seed: u64, flood: usize) -> Value {
     use std::sync::{Arc, Mutex};
     let mut violations: Vec<Value> = vec![];
     // kinds: (name, expected errno)
@@ -329,6 +329,74 @@ pub fn error_stress(root: c_int, nthreads: usize, per_thread: usize, seed: u64) 
             }
         }
     }
+    // phase B3: very many errors outstanding at once.  Ids are drawn at random from ~2^31 values: with n outstanding errors a
+    // store that does not look at the outstanding ones hands out about n^2/2^32 ids twice.
+    let mut flood_stats = json!({"n": 0});
+    if flood > 0 {
+        let threads = 8usize;
+        let per = flood / threads;
+        let sock = CString::new("flood-sock").unwrap();
+        let sock_ptr = sock.as_ptr() as usize;
+        let mut handles = vec![];
+        for t in 0..threads {
+            handles.push(std::thread::spawn(move || {
+                let mut v: Vec<(c_int, u64)> = Vec::with_capacity(per);
+                for j in 0..per {
+                    unsafe {
+                        if (t + j) % 2 == 0 {
+                            v.push((pathrs_inroot_resolve(root, std::ptr::null()), libc::EINVAL as u64));
+                        } else {
+                            v.push((pathrs_inroot_mknod(root, sock_ptr as *const libc::c_char, libc::S_IFSOCK | 0o644, 0), libc::ENOSYS as u64));
+                        }
+                    }
+                }
+                v
+            }));
+        }
+        let mut pending: Vec<(c_int, u64)> = Vec::with_capacity(flood);
+        for h in handles {
+            pending.extend(h.join().unwrap());
+        }
+        let mut seen2 = std::collections::HashSet::with_capacity(pending.len());
+        let (mut dups, mut nulls, mut wrong, mut not_gone) = (0u64, 0u64, 0u64, 0u64);
+        let mut example: Option<Value> = None;
+        for (id, _) in &pending {
+            if *id >= -4095 || !seen2.insert(*id) {
+                dups += 1;
+                if example.is_none() {
+                    example = Some(json!({"what": "an id was handed out while an error with the same id was still outstanding", "id": id}));
+                }
+            }
+        }
+        for (id, errno) in &pending {
+            unsafe {
+                let e = pathrs_errorinfo(*id);
+                if e.is_null() {
+                    nulls += 1;
+                    continue;
+                }
+                if (*e).saved_errno != *errno {
+                    wrong += 1;
+                    if example.is_none() {
+                        example = Some(json!({"what": "errorinfo of another failure", "id": id, "expected_errno": errno, "got_errno": (*e).saved_errno}));
+                    }
+                }
+                pathrs_errorinfo_free(e);
+                let again = pathrs_errorinfo(*id);
+                if !again.is_null() {
+                    // only a violation when the id was unique: a duplicated id legitimately has... no, never: an id is consumed once
+                    not_gone += 1;
+                    pathrs_errorinfo_free(again);
+                }
+            }
+        }
+        flood_stats = json!({"n": pending.len(), "duplicate_ids": dups, "first_call_null": nulls, "wrong_errno": wrong, "second_call_not_null": not_gone});
+        if dups > 0 || nulls > 0 || wrong > 0 || not_gone > 0 {
+            violations.push(json!({"what": "with many errors outstanding at once, ids are not unique / errorinfo is not that failure's",
+                                   "outstanding": pending.len(), "duplicate_ids": dups, "first_call_null": nulls, "wrong_errno": wrong,
+                                   "second_call_not_null": not_gone, "example": example}));
+        }
+    }
     // phase C: interleaved store/take with a serialised log
     let log: Arc<Mutex<Vec<Value>>> = Arc::new(Mutex::new(vec![]));
     let pool: Arc<Mutex<Vec<(c_int, String)>>> = Arc::new(Mutex::new(vec![]));
@@ -370,5 +438,5 @@ pub fn error_stress(root: c_int, nthreads: usize, per_thread: usize, seed: u64) 
     let min_id = all.iter().map(|x| x.2).min().unwrap_or(0);
     let max_id = all.iter().map(|x| x.2).max().unwrap_or(0);
     let history = log.lock().unwrap().clone();
-    json!({"n_ids": all.len(), "min_id": min_id, "max_id": max_id, "violations": violations, "history": history})
+    json!({"n_ids": all.len(), "min_id": min_id, "max_id": max_id, "violations": violations, "history": history, "flood": flood_stats})
 }
